@@ -316,6 +316,9 @@ func runC15(p *Prog, r *Report, tier string) {
 		}
 	}
 	checkExternalCalls(p, r, hs, qs)
+	if tier == "thorough" {
+		vtaCrossCheck(p, r)
+	}
 }
 
 // externalPure is the frozen classification of calls leaving the module from
